@@ -1069,6 +1069,7 @@ pub fn replay_isolated(prog: &Arc<Prog>, choices: &[usize], atomic_batches: bool
     let shm = Shm::new(1024, 1 << 18);
     let pid = unsafe { libc::fork() };
     if pid == 0 {
+        crate::watchdog::arm();
         let sched = Sched::new(Mode::Fixed);
         sched.core().forced = choices.to_vec();
         let r = run_prog(prog, &sched);
@@ -1111,6 +1112,7 @@ pub fn explore(progs: &[Arc<Prog>], bound: (usize, usize), parts: usize, workers
     for _ in 0..workers.max(1) {
         let pid = unsafe { libc::fork() };
         if pid == 0 {
+            crate::watchdog::arm();
             loop {
                 let j = shm.add(C_NEXT_TASK, 1) as usize;
                 if j >= jobs.len() {
@@ -1130,7 +1132,10 @@ pub fn explore(progs: &[Arc<Prog>], bound: (usize, usize), parts: usize, workers
         let mut st: libc::c_int = 0;
         unsafe { libc::waitpid(pid, &mut st, 0) };
         if !(libc::WIFEXITED(st) && libc::WEXITSTATUS(st) == 0) {
-            machinery.push(format!("schedx worker died (wait status {})", st));
+            machinery.push(match crate::watchdog::describe_exit(st) {
+                Some(m) => format!("schedx worker: {}", m),
+                None => format!("schedx worker died (wait status {})", st),
+            });
         }
     }
     let capped = (shm.get(C_TASKS_DONE) as usize) < jobs.len();
